@@ -1,8 +1,130 @@
-(* C17 - page allocators / object pool.  Statements only. *)
+(* C17 - Page allocators / object pool: resources conserved, never shared, never lost.
+   Only statements; proofs are `exact <lemma of PA/PAProofs.v>`.
+
+   PART A (concurrent).  `Reach qc pc progs s` = state s is reachable from the initial state of the client programs
+   `progs` (one list of calls per thread, arbitrary) on a queue of capacity qc and a pool capacity pc under SOME
+   schedule: every theorem over Reach is quantified over all programs, all thread counts, all capacities >= 1 and all
+   interleavings of the atomic steps of CachedPageAllocator::allocate/deallocate (OAlloc/OFree, incl. the
+   compensating reverse callbacks and the beyond-capacity part) and of ObjectPool pop/push/try_pop in auto-create
+   mode (OPoolPop/OPoolPush) and strict mode (ONew/OSPop/OSPush/OTryPop).
+     pages_of s = cache content ++ pages held by callers ++ pages inside running calls ++ pages returned upstream;
+     err s      = some callback touched a queue cell it does not own / in the wrong state.
+   PART B (sequential, calls of different threads in any order): Counting(Batch(upstream)).
+
+   Not mechanised (stated in META["note"]): the ring-slot/version/futex protocol of ConcurrentBoundedQueue below the
+   ticket contract (C01), termination under fairness (liveness appears as enabledness theorems:
+   c17_blocked_pop_resumes, c17_compensates_when_starved), and the bound "cached <= capacity" outside quiescent
+   states (c17_cache_bounded_at_quiescence). *)
 From Coq Require Import ZArith List Bool Arith Permutation.
 Require Import Verif.Gen.Gen_page_allocator Verif.Conc.Machine Verif.PA.PAModel Verif.PA.PAProofs.
 Import ListNotations.
 
+(* a page (object) is in exactly one place at any time: never cached twice, never held by two callers, never held or
+   cached after it went back upstream; and no callback ever reads or overwrites a cell that is not its own *)
+Theorem c17_single_owner : forall qc pc progs s, 1 <= qc -> Reach qc pc progs s -> NoDup (pages_of s) /\ err s = false.
+Proof. exact (fun qc pc progs s H R => pa_single_owner s (pa_inv qc pc progs s H R)). Qed.
+Print Assumptions c17_single_owner.
+
+(* nothing is lost and nothing is invented: the pages in the four places are exactly the pages obtained from upstream *)
+Theorem c17_conservation : forall qc pc progs s, 1 <= qc -> Reach qc pc progs s ->
+  Permutation (pages_of s) (seq 0 (fresh s)).
+Proof. exact (fun qc pc progs s H R => pa_conservation s (pa_inv qc pc progs s H R)). Qed.
+Print Assumptions c17_conservation.
+
+(* at any quiescent point: obtained - returned = held by callers + cached *)
+Theorem c17_conservation_at_quiescence : forall qc pc progs s, 1 <= qc -> Reach qc pc progs s -> quiescent s = true ->
+  fresh s - length (returned s) = length (all_held s) + length (tape_pages (tape s)) /\ length (returned s) <= fresh s.
+Proof. exact (fun qc pc progs s H R => pa_conservation_quiescent s (pa_inv qc pc progs s H R)). Qed.
+Print Assumptions c17_conservation_at_quiescence.
+
+(* destroying the allocator returns exactly its cache upstream (and touches nothing else) *)
+Theorem c17_dtor_returns_cache : forall qc pc progs s, 1 <= qc -> Reach qc pc progs s -> quiescent s = true ->
+  tape_pages (tape (dtor s)) = [] /\ Permutation (returned (dtor s)) (returned s ++ tape_pages (tape s)) /\
+  threads (dtor s) = threads s /\ fresh (dtor s) = fresh s.
+Proof. exact (fun qc pc progs s H R => pa_dtor_returns_cache s (pa_inv qc pc progs s H R)). Qed.
+Print Assumptions c17_dtor_returns_cache.
+
+Theorem c17_cache_bounded_at_quiescence : forall qc pc progs s, 1 <= qc -> Reach qc pc progs s -> quiescent s = true ->
+  length (tape_pages (tape s)) <= qcap s.
+Proof. exact (fun qc pc progs s H R => pa_cache_bounded_quiescent s (pa_inv qc pc progs s H R)). Qed.
+Print Assumptions c17_cache_bounded_at_quiescence.
+
+(* the claim on the queue never exceeds its capacity (so a batch larger than the cache takes the direct path) *)
 Theorem c17_claims_fit_the_cache : forall n c, alloc_need_n n c = Nat.min n c /\ free_need_n n c = Nat.min n c.
 Proof. exact (fun n c => conj (alloc_need_spec n c) (free_need_spec n c)). Qed.
 Print Assumptions c17_claims_fit_the_cache.
+
+(* a call whose awaited ticket has not even been claimed by the opposite side compensates instead of yielding for
+   ever (allocate on an empty cache / deallocate on a full cache) *)
+Theorem c17_compensates_when_starved : forall npop npush q l n p, l <= p < l + n ->
+  (npush <= p -> comp_now false npop npush q l n = true) /\ (npop + q <= p -> comp_now true npop npush q l n = true).
+Proof. exact (fun npop npush q l n p H => conj (comp_now_pop npop npush q l n p H) (comp_now_push npop npush q l n p H)). Qed.
+Print Assumptions c17_compensates_when_starved.
+
+(* strict pool: objects are never created by the pool, so never more than the injected ones are outstanding *)
+Theorem c17_strict_never_creates : forall qc pc progs s, strict_progs progs = true -> Reach qc pc progs s -> fresh s = news s.
+Proof. exact pa_strict_never_creates. Qed.
+Print Assumptions c17_strict_never_creates.
+Theorem c17_strict_bound : forall qc pc progs s, 1 <= qc -> strict_progs progs = true -> Reach qc pc progs s ->
+  length (all_held s) + length (tape_pages (tape s)) <= news s.
+Proof. exact pa_strict_bound. Qed.
+Print Assumptions c17_strict_bound.
+
+(* a blocked pop resumes as soon as its object is there, and pops are blocked only when the pool is really empty *)
+Theorem c17_blocked_pop_resumes : forall s t th i, nth_error (threads s) t = Some th -> tpc th = SWait false i ->
+  pop_ready (tape s) i = true -> step s t <> None.
+Proof. exact pa_blocked_pop_enabled. Qed.
+Print Assumptions c17_blocked_pop_resumes.
+Theorem c17_blocked_pop_means_empty : forall qc pc progs s, 1 <= qc -> Reach qc pc progs s ->
+  (forall t th, nth_error (threads s) t = Some th ->
+     tpc th = Idle \/ exists i, tpc th = SWait false i /\ pop_ready (tape s) i = false) ->
+  (exists t th i, nth_error (threads s) t = Some th /\ tpc th = SWait false i) ->
+  tape_pages (tape s) = [].
+Proof. exact (fun qc pc progs s H R => pa_blocked_pop_means_empty s (pa_inv qc pc progs s H R)). Qed.
+Print Assumptions c17_blocked_pop_means_empty.
+
+(* the recycler runs exactly once, in order, for every object handed to push *)
+Theorem c17_recycle_once : forall qc pc progs s, Reach qc pc progs s -> recycled s = pushes s.
+Proof. exact pa_recycle_once. Qed.
+Print Assumptions c17_recycle_once.
+
+(* auto-create mode: a push that sees the pool at capacity destroys the object (it goes to `returned`, the queue is
+   untouched); together with c17_conservation nothing is leaked *)
+Theorem c17_overflow_destroyed : forall s t th a, nth_error (threads s) t = Some th -> tpc th = PSize2 a ->
+  pcap s <= npush s - a ->
+  exists s', step s t = Some s' /\ returned s' = returned s ++ buf th /\ tape s' = tape s /\
+             npush s' = npush s /\ npop s' = npop s.
+Proof. exact pa_overflow_destroyed. Qed.
+Print Assumptions c17_overflow_destroyed.
+
+(* ---- PART B: batch allocator (per-thread prefetch buffer) under the counting allocator ---- *)
+Theorem c17_batch_conservation : forall ops b n, 1 <= b -> bops_ok n ops ->
+  let s := brun (binit b n) ops in
+  Permutation (bpages s) (seq 0 (bfresh s)) /\ NoDup (bpages s) /\ berr s = false.
+Proof. exact (fun ops b n Hb Hok => pb_conservation _ (proj1 (pb_inv ops b n Hb Hok))). Qed.
+Print Assumptions c17_batch_conservation.
+
+Theorem c17_counting_exact : forall ops b n, 1 <= b -> bops_ok n ops ->
+  let s := brun (binit b n) ops in allocated_page_num s = Z.of_nat (length (concat (bheld s))).
+Proof. exact (fun ops b n Hb Hok => pb_counting_exact _ (proj1 (pb_inv ops b n Hb Hok))). Qed.
+Print Assumptions c17_counting_exact.
+
+Theorem c17_batch_dtor_returns_buffers : forall ops b n, 1 <= b -> (Z.of_nat b < 2 ^ 64)%Z -> bops_ok n ops ->
+  let s := brun (binit b n) ops in
+  flat_map slot_rest (slots (bdtor s)) = [] /\ breturned (bdtor s) = breturned s ++ flat_map slot_rest (slots s) /\
+  bheld (bdtor s) = bheld s.
+Proof. exact pb_dtor_run. Qed.
+Print Assumptions c17_batch_dtor_returns_buffers.
+
+(* ---- non-vacuity ---- *)
+Example c17_reach_example : exists s, Reach 2 0 ex_progs s /\ quiescent s = true /\ all_done s = true /\
+  tape_pages (tape s) <> [] /\ returned s <> [] /\ all_held s <> [].
+Proof. exact ex_reach. Qed.
+Example c17_blocked_example : exists s, Reach 2 1 [[OSPop]; [ONew; OSPush]] s /\
+  (forall t th, nth_error (threads s) t = Some th ->
+     tpc th = Idle \/ exists i, tpc th = SWait false i /\ pop_ready (tape s) i = false) /\
+  (exists t th i, nth_error (threads s) t = Some th /\ tpc th = SWait false i).
+Proof. exact ex_blocked. Qed.
+Example c17_batch_example : BInv (brun (binit 2 2) [BAlloc 0; BAllocN 1 3; BFree 0; BAlloc 0]) /\
+  boutcome (brun (binit 2 2) [BAlloc 0; BAllocN 1 3; BFree 0; BAlloc 0]) = ([[1]; [2; 3; 4]], [[]; [5]], ([0], 6, 4%Z)).
+Proof. exact ex_batch. Qed.
